@@ -80,12 +80,26 @@ func (p *Prog) verifyFunc(fn *ssa.Function, ct *Contract) (res *FuncResult) {
 		pre.vars[k] = v
 	}
 	fr.entry = st
+	isInit := fn.Name() == "init" && fn.Signature.Recv() == nil && fn.Parent() == nil
+	fr.isInit = isInit
+	if !isInit {
+		for _, gi := range p.globalInvs {
+			if pk := pre.pkg(); pk != nil && pk.Name() == gi.Pkg {
+				vc.assumeRaw(pre.evalBool(gi.Clause.Expr))
+				vc.trusted["global-invariant:"+gi.Pkg+"."+gi.Clause.Label+" (proved of init; no-other-store scan)"] = true
+			}
+		}
+	}
 	for _, rq := range ct.Requires {
 		vc.assumeRaw(pre.evalBool(rq.Expr))
 	}
 	// cover: the precondition is satisfiable
 	vc.obls = append(vc.obls, &Obligation{Name: key + "/cover[entry]", Kind: "cover", Goal: tFalse, NAssume: len(vc.assumes), Func: key, Cover: true, Pos: p.pos(fn.Pos()), Clause: "requires and typing assumptions are satisfiable"})
 
+	if isInit {
+		p.verifyInitGlobals(fn, fr, st)
+		return res
+	}
 	exits := fr.run(st)
 	res.Returns = len(exits)
 	// order return sites by source position
@@ -113,6 +127,31 @@ func (p *Prog) verifyFunc(fn *ssa.Function, ct *Contract) (res *FuncResult) {
 		for _, en := range ct.Ensures {
 			name := fmt.Sprintf("%s/ensures[%s]%s", key, en.Label, site)
 			vc.oblige(ex.st, name, "ensures", post.evalBool(en.Expr), en.Text)
+		}
+		if isInit {
+			for _, gi := range p.globalInvs {
+				if pk := post.pkg(); pk != nil && pk.Name() == gi.Pkg {
+					name := fmt.Sprintf("%s/global-invariant[%s]%s", key, gi.Clause.Label, site)
+					vc.oblige(ex.st, name, "ensures", post.evalBool(gi.Clause.Expr), gi.Clause.Text)
+					// nothing but the initializer stores to the variables mentioned
+					names := map[string]bool{}
+					globalsIn(gi.Clause.Expr, names)
+					for n := range names {
+						g, ok := fn.Pkg.Members[n].(*ssa.Global)
+						if !ok {
+							continue
+						}
+						bad := p.scanGlobalWrites(fn.Pkg, g)
+						st := "unsat"
+						if len(bad) > 0 {
+							st = "sat"
+						}
+						vc.obls = append(vc.obls, &Obligation{Name: fmt.Sprintf("%s/global-invariant[%s]/no-other-store[%s]", key, gi.Clause.Label, n), Kind: "scan",
+							Goal: tTrue, Func: key, Pos: p.pos(g.Pos()), Clause: "only the package initializer stores to " + n,
+							Result: &SolverResult{Status: st, Solver: "syntactic-scan", Output: strings.Join(bad, "\n")}})
+					}
+				}
+			}
 		}
 		if ct.HasMod {
 			for _, g := range vc.frameGoal(fr.entry, ex.st, frameTs) {
@@ -164,6 +203,241 @@ func describeTrusted(vc *VC) []string {
 	}
 	sort.Strings(out)
 	return out
+}
+
+// verifyInitGlobals proves the global invariants of a package on the slice of
+// its initializer that writes the variables they mention: a package-level
+// variable starts zeroed, the initializer's stores to it (constant index /
+// field paths, constant values) are replayed in order, and the invariant must
+// hold afterwards.  Any other use of the variable inside the initializer makes
+// the obligation fail (reported, not assumed).
+func (p *Prog) verifyInitGlobals(fn *ssa.Function, fr *Frame, st *State) {
+	vc := fr.vc
+	key := funcKey(fn)
+	for _, gi := range p.globalInvs {
+		if fn.Pkg == nil || fn.Pkg.Pkg.Name() != gi.Pkg {
+			continue
+		}
+		names := map[string]bool{}
+		globalsIn(gi.Clause.Expr, names)
+		cur := st.clone()
+		var problems []string
+		for n := range names {
+			g, ok := fn.Pkg.Members[n].(*ssa.Global)
+			if !ok {
+				continue
+			}
+			gref := tInt(int64(p.globalRef(g)))
+			et := g.Type().(*types.Pointer).Elem()
+			// zero value
+			seen := map[Kind]bool{}
+			for _, k := range p.lay.of(et).Kinds {
+				if !seen[k] {
+					seen[k] = true
+					hk := vc.heapKey(k)
+					vc.set(cur, hk, tSto(vc.get(cur, hk), gref, zeroArr(k)))
+				}
+			}
+			// replay the stores of the initializer
+			for _, b := range fn.Blocks {
+				for _, in := range b.Instrs {
+					uses := false
+					for _, op := range in.Operands(nil) {
+						if *op == ssa.Value(g) {
+							uses = true
+						}
+					}
+					if !uses {
+						continue
+					}
+					switch x := in.(type) {
+					case *ssa.DebugRef, *ssa.UnOp:
+					case *ssa.IndexAddr:
+						idx, isConst := x.Index.(*ssa.Const)
+						if !isConst || x.Referrers() == nil {
+							problems = append(problems, "dynamic index: "+in.String())
+							continue
+						}
+						arr := et.Underlying().(*types.Array)
+						off := vc.elemOff("0", tInt(idx.Int64()), p.lay.size(arr.Elem()))
+						for _, r := range *x.Referrers() {
+							switch r := r.(type) {
+							case *ssa.Store:
+								c, isC := r.Val.(*ssa.Const)
+								if r.Addr != ssa.Value(x) || !isC {
+									problems = append(problems, "non-constant store: "+r.String())
+									continue
+								}
+								v := fr.constVal(c)
+								v.T = arr.Elem()
+								vc.storeAt(cur, gref, off, v)
+							case *ssa.DebugRef, *ssa.UnOp:
+							default:
+								problems = append(problems, "address escapes: "+r.String())
+							}
+						}
+					case *ssa.Store:
+						c, isC := x.Val.(*ssa.Const)
+						if x.Addr != ssa.Value(g) || !isC || p.lay.size(et) > 8 {
+							problems = append(problems, "unsupported store: "+in.String())
+							continue
+						}
+						v := fr.constVal(c)
+						v.T = et
+						vc.storeAt(cur, gref, "0", v)
+					default:
+						problems = append(problems, "unsupported use: "+in.String())
+					}
+				}
+			}
+			bad := p.scanGlobalWrites(fn.Pkg, g)
+			stt := "unsat"
+			if len(bad) > 0 {
+				stt = "sat"
+			}
+			vc.obls = append(vc.obls, &Obligation{Name: fmt.Sprintf("%s/global-invariant[%s]/no-other-store[%s]", key, gi.Clause.Label, n), Kind: "scan",
+				Goal: tTrue, Func: key, Pos: p.pos(g.Pos()), Clause: "only the package initializer stores to " + n,
+				Result: &SolverResult{Status: stt, Solver: "syntactic-scan", Output: strings.Join(bad, "\n")}})
+		}
+		name := fmt.Sprintf("%s/global-invariant[%s]", key, gi.Clause.Label)
+		if len(problems) > 0 {
+			vc.obls = append(vc.obls, &Obligation{Name: name, Kind: "ensures", Goal: tFalse, Func: key, Clause: gi.Clause.Text,
+				Result: &SolverResult{Status: "unknown", Solver: "syntactic-scan", Output: strings.Join(problems, "\n")}})
+			continue
+		}
+		env := fr.specEnv(cur, cur)
+		vc.curPos = fn.Pos()
+		vc.oblige(cur, name, "ensures", env.evalBool(gi.Clause.Expr), gi.Clause.Text)
+	}
+}
+
+// protectedGlobals: refs of unexported package-level variables that a global
+// invariant mentions and that pass the no-other-store scan.
+func (p *Prog) protectedGlobals() []int {
+	if p.protDone {
+		return p.prot
+	}
+	p.protDone = true
+	for _, gi := range p.globalInvs {
+		names := map[string]bool{}
+		globalsIn(gi.Clause.Expr, names)
+		for _, sp := range p.ssa.AllPackages() {
+			if sp.Pkg.Name() != gi.Pkg || !strings.HasPrefix(sp.Pkg.Path(), repoMod) {
+				continue
+			}
+			for n := range names {
+				g, ok := sp.Members[n].(*ssa.Global)
+				if !ok || g.Object() == nil || g.Object().Exported() {
+					continue
+				}
+				if len(p.scanGlobalWrites(sp, g)) == 0 {
+					p.prot = append(p.prot, p.globalRef(g))
+				}
+			}
+		}
+	}
+	sort.Ints(p.prot)
+	return p.prot
+}
+
+// globalsIn lists the package-level variables a specification mentions.
+func globalsIn(x SExpr, out map[string]bool) {
+	switch x := x.(type) {
+	case *SIdent:
+		out[x.Name] = true
+	case *SBin:
+		globalsIn(x.L, out)
+		globalsIn(x.R, out)
+	case *SUn:
+		globalsIn(x.X, out)
+	case *SCall:
+		for _, a := range x.Args {
+			globalsIn(a, out)
+		}
+	case *SSel:
+		globalsIn(x.X, out)
+	case *SIndex:
+		globalsIn(x.X, out)
+		globalsIn(x.I, out)
+	case *SSlice:
+		globalsIn(x.X, out)
+	case *SQuant:
+		globalsIn(x.Body, out)
+	case *SCond:
+		globalsIn(x.C, out)
+		globalsIn(x.A, out)
+		globalsIn(x.B, out)
+	}
+}
+
+// scanGlobalWrites returns the uses of package-level variable g outside the
+// package initializer that are not plain reads (load, indexed/field load).
+func (p *Prog) scanGlobalWrites(pkg *ssa.Package, g *ssa.Global) []string {
+	var bad []string
+	readOnly := func(v ssa.Value) bool {
+		refs := v.Referrers()
+		if refs == nil {
+			return false
+		}
+		for _, r := range *refs {
+			switch r := r.(type) {
+			case *ssa.UnOp:
+			case *ssa.DebugRef:
+			default:
+				_ = r
+				return false
+			}
+		}
+		return true
+	}
+	var visit func(fn *ssa.Function)
+	visit = func(fn *ssa.Function) {
+		for _, b := range fn.Blocks {
+			for _, in := range b.Instrs {
+				for _, op := range in.Operands(nil) {
+					if *op != ssa.Value(g) {
+						continue
+					}
+					ok := false
+					switch x := in.(type) {
+					case *ssa.UnOp:
+						ok = true
+					case *ssa.IndexAddr:
+						ok = readOnly(x)
+					case *ssa.FieldAddr:
+						ok = readOnly(x)
+					case *ssa.DebugRef:
+						ok = true
+					}
+					if !ok {
+						bad = append(bad, fmt.Sprintf("%s: %s at %s", funcKey(fn), in.String(), p.pos(in.Pos())))
+					}
+				}
+			}
+		}
+		for _, a := range fn.AnonFuncs {
+			visit(a)
+		}
+	}
+	for _, m := range pkg.Members {
+		switch m := m.(type) {
+		case *ssa.Function:
+			if m.Name() == "init" {
+				continue
+			}
+			visit(m)
+		case *ssa.Type:
+			if nt, ok := m.Type().(*types.Named); ok {
+				for i := 0; i < nt.NumMethods(); i++ {
+					if f := p.ssa.FuncValue(nt.Method(i)); f != nil {
+						visit(f)
+					}
+				}
+			}
+		}
+	}
+	sort.Strings(bad)
+	return bad
 }
 
 var _ = strings.Join
